@@ -6,6 +6,8 @@ package main
 import (
 	"fmt"
 	"go/types"
+	"os"
+	"path/filepath"
 	"sort"
 	"strings"
 
@@ -213,6 +215,38 @@ func init() {
 	}
 	h["verifForeignWrites"] = func(in *Interp, caller *frame, fn *ssa.Function, args []Value) Value {
 		return intT(int64(len(in.foreignWrites)))
+	}
+	// concrete data from the repository under analysis (test vectors): the file is
+	// read when the harness runs, never cached across runs
+	h["verifReadRepoFile"] = func(in *Interp, caller *frame, fn *ssa.Function, args []Value) Value {
+		rel := strArg(in, args[0])
+		b, err := os.ReadFile(filepath.Join(repoRoot, filepath.Clean("/"+rel)))
+		if err != nil {
+			in.unsupported("verifReadRepoFile %s: %v", rel, err)
+		}
+		bs := make([]*Term, len(b))
+		for i, c := range b {
+			bs[i] = Const(8, uint64(c))
+		}
+		if len(bs) == 0 {
+			return in.bytesToSlice(nil)
+		}
+		return in.bytesToSlice(bs)
+	}
+	h["verifListRepoDir"] = func(in *Interp, caller *frame, fn *ssa.Function, args []Value) Value {
+		rel := strArg(in, args[0])
+		ents, err := os.ReadDir(filepath.Join(repoRoot, filepath.Clean("/"+rel)))
+		if err != nil {
+			in.unsupported("verifListRepoDir %s: %v", rel, err)
+		}
+		var names []string
+		for _, e := range ents {
+			if !e.IsDir() {
+				names = append(names, e.Name())
+			}
+		}
+		sort.Strings(names)
+		return mkStr(strings.Join(names, "\n"))
 	}
 	h["verifSymbolic"] = func(in *Interp, caller *frame, fn *ssa.Function, args []Value) Value { return TT.True }
 	h["verifIsOpaque"] = func(in *Interp, caller *frame, fn *ssa.Function, args []Value) Value {
